@@ -102,9 +102,13 @@ def check_property(pid, tier, seed, keep=False):
     try:
         rc = _check(pid, P, tier, seed, bdir, ev)
     except (EX.ExtractError, LexError, SyntaxError) as e:
-        log('UNDECIDED property=%s reason=extractor: %s' % (pid, e))
         cov.setdefault('explanation', 'undecided: extractor: %s' % e)
-        rc = 2
+        cov['undecided'] = ['extractor: %s' % e]
+        if concrete_fallback(pid, seed, ev, cov['undecided']):
+            rc = 1
+        else:
+            log('UNDECIDED property=%s reason=extractor: %s' % (pid, e))
+            rc = 2
     finally:
         ev['wall_s'] = round(time.time() - t0, 2)
         write_evidence(pid, ev, rc)
@@ -285,6 +289,9 @@ def _check(pid, P, tier, seed, bdir, ev):
     ev['violations'] = len(seen)
     cov['failed_obligations'] = sorted(seen)
     if rc == 0 and undecided:
+        if concrete_fallback(pid, seed, ev, undecided):
+            cov['undecided'] = undecided
+            return 1
         for u in undecided:
             log('UNDECIDED property=%s reason=%s' % (pid, u))
         cov['undecided'] = undecided
@@ -296,6 +303,33 @@ def _check(pid, P, tier, seed, bdir, ev):
         log('OK property=%s obligations=%d discharged=%d functions_under_contract=%d solver_ms=%d' %
             (pid, total_obl, total_dis, cov['functions_under_contract'], solver_ms))
     return rc
+
+
+def concrete_fallback(pid, seed, ev, undecided):
+    """The verifier could not decide: a concrete failing input on the real code still is a violation (never the other way round)."""
+    cov = ev['coverage']
+    res = None
+    try:
+        import rtcheck
+        res = rtcheck.search(pid, 'undecided', seed)
+    except Exception as e:
+        cov['rtcheck_error'] = str(e)
+    if res is not None:
+        cov['concrete_search'] = {k: v for k, v in res.items() if k != 'case'}
+    if res and res.get('found'):
+        x = VR.Failure()
+        sc = res['case'].get('scenario', '?') if isinstance(res['case'], dict) else '?'
+        x.obligation = 'concrete replay :: %s' % sc
+        x.message = ('the verifier was undecided (%s); the concrete search found an input on which the real code violates the property'
+                     % '; '.join(undecided)[:600])
+        x.rendered = json.dumps(res['case'], indent=1)[:6000]
+        x.kani = dict(counterexample=res['case'])
+        path, found = write_replay(pid, x, seed)
+        log('VIOLATION property=%s replay=%s obligation="%s"' % (pid, path, x.obligation))
+        ev['violations'] = 1
+        cov['failed_obligations'] = [x.obligation]
+        return True
+    return False
 
 
 def write_replay(pid, x, seed):
@@ -325,11 +359,12 @@ def write_replay(pid, x, seed):
         try:
             import rtcheck
             res = rtcheck.search(pid, x.obligation, seed)
-            if res:
-                rep['concrete_input'] = res
-                found = True
-        except ImportError:
-            pass
+            if res is not None:
+                rep['concrete_search'] = {k: v for k, v in res.items() if k != 'case'}
+                if res.get('found'):
+                    rep['concrete_input'] = res['case']
+                    rep['replay_cmd'] = '%s %s %s --repo %s --replay <this file>.concrete_input' % (sys.executable, rtcheck.RUNNER, pid, REPO)
+                    found = True
         except Exception as e:
             rep['rtcheck_error'] = str(e)
     if not found:
